@@ -129,7 +129,7 @@ def classify(wl, out):
     f, Z = None, None
     n_unmasked = wl["data"]["n"] - len([i for i in wl["data"].get("mask", []) if i < wl["data"]["n"]])
     return "aborted", {"entry": wl["entry"], "exception": out.exc_class, "function": func,
-                       "size": "tiny (<= 9 unmasked points)" if n_unmasked <= 9 else "normal (> 9 unmasked points)"}
+                       "size": "tiny (<= 9 unmasked points)" if n_unmasked <= 9 else ("small (10-13 unmasked points)" if n_unmasked <= 13 else "normal (>= 14 unmasked points)")}
 
 
 def evaluate(wl, cfg, dec, ctx):
